@@ -132,24 +132,28 @@ class Hist:
 
     # ---- the "client action concurrent with the scheduler's exec of the same task" discriminator
     def actions_during_exec(self):
-        """set of (pid, tid) for which a client action was in progress while the scheduler was executing that task"""
+        """set of (pid, tid) of tasks whose scheduler-side execution overlapped, on ANOTHER thread, a client action
+        on the same process (the engine has no per-process lock)"""
+        if hasattr(self, '_ade'):
+            return self._ade
         spans = collections.defaultdict(list)
         open_ = {}
         for e in self.execs:
             k = (e['pid'], e['tid'])
             if e['phase'] == 'begin':
-                open_.setdefault(k, []).append(e['seq'])
+                open_.setdefault(k, []).append((e['seq'], e.get('thread')))
             elif open_.get(k):
-                spans[k].append((open_[k].pop(), e['seq']))
+                b, th = open_[k].pop()
+                spans[k[0]].append((b, e['seq'], th, k))
         for k, l in open_.items():
-            for b in l:
-                spans[k].append((b, 1 << 62))
+            for b, th in l:
+                spans[k[0]].append((b, 1 << 62, th, k))
         hit = set()
         for a in self.actions:
-            k = (a['pid'], a['tid'])
-            for b, e in spans.get(k, ()):
-                if a['call'] < e and a['seq'] > b:
+            for b, e, th, k in spans.get(a['pid'], ()):
+                if a['call'] < e and a['seq'] > b and th != a.get('thread'):
                     hit.add(k)
+        self._ade = hit
         return hit
 
     def twin_success_pids(self):
